@@ -147,6 +147,15 @@ Eval(t, inp, pos) ==
               IF IsOk(r) THEN Ok(l.v \o r.v, r.pos) ELSE ToFatal(r)
     [] t.op = "then_with" ->   \* the right side receives the left output as context and is complete
          LET l == Eval(t.p, inp, pos) IN IF IsOk(l) THEN Ok(l.v \o l.v, l.pos) ELSE l
+    \* the right side is the dependent element with the left output as its context: it reads one character, and rejects
+    \* it - softly, without consuming - when the left output is exactly that character (softly too at the end of the
+    \* input); a failure of the right side of then_with is fatal whatever it was
+    [] t.op = "then_dep" ->
+         LET l == Eval(t.p, inp, pos) IN
+         IF ~IsOk(l) THEN l
+         ELSE IF Eof(inp, l.pos) THEN Fatal(0, l.pos)
+         ELSE IF l.v = <<inp[l.pos + 1]>> THEN Fatal(0, l.pos)
+         ELSE Ok(Append(l.v, inp[l.pos + 1]), l.pos + 1)
     [] t.op = "surround_opt" ->
          LET l == Eval(t.l, inp, pos) IN
          IF IsFatal(l) THEN l
